@@ -73,6 +73,7 @@ func runOracles(res *Result, prop string, c *Case) {
 		oracleC04(res, c)
 	case "C14":
 		oracleC14(res, c)
+		oracleC14Methods(res, c)
 	case "C03":
 		oracleC03(res, c)
 	case "C12":
